@@ -59,10 +59,11 @@ impl UpdateGenerator for MarkdownUpdateGenerator {
             match token {
                 MarkdownToken::Line(_, line) => updated.push_str(&line.assure_newline()),
                 MarkdownToken::DocumentConfig(config) => {
-                    let config = config.join_newline();
                     updated.push_str("---\n");
-                    updated.push_str(&config);
-                    updated.push_str("\n---\n");
+                    for (_, line) in &config {
+                        updated.push_str(&line.assure_newline());
+                    }
+                    updated.push_str("---\n");
                 }
                 MarkdownToken::VerbatimCodeBlock {
                     starting_line_number: _,
